@@ -459,6 +459,59 @@ func runC17(r *Run, verifDir string) {
 		r.OK("C17.N7", "masks/no-order-compare", token.NoPos, "%d mask rendering/parsing function(s): no ordering comparison on a mask value", nFn)
 	}
 
+	// ---------------- N8 re-registration keeps both directions in step
+	r.Rule("C17.N8", "RegisterEnum creates its two per-tag maps under the same condition (both merged or both replaced on a second registration)", 1)
+	if re := p.Func("ttlv", "", "RegisterEnum"); re != nil && re.Blocks != nil {
+		type creation struct {
+			mapT    string
+			guarded bool
+			pos     token.Pos
+		}
+		var cs []creation
+		allInstrs(re, func(in ssa.Instruction) {
+			mu, ok := in.(*ssa.MapUpdate)
+			if !ok {
+				return
+			}
+			if _, isMake := mu.Value.(*ssa.MakeMap); !isMake {
+				return
+			}
+			g := globalRoot(mu.Map, 0)
+			if g == nil {
+				return
+			}
+			guarded := false
+			for _, dc := range dominatingConds(mu.Block()) {
+				bo, ok := dc.cond.(*ssa.BinOp)
+				if !ok || !isNilConst(bo.Y) {
+					continue
+				}
+				if lk, ok := bo.X.(*ssa.Lookup); ok && globalRoot(lk.X, 0) == g && (bo.Op == token.EQL) == dc.outcome {
+					guarded = true
+				}
+			}
+			cs = append(cs, creation{types.TypeString(mu.Map.Type(), func(*types.Package) string { return "" }), guarded, mu.Pos()})
+		})
+		switch {
+		case len(cs) < 2:
+			r.Unk("C17.N8", "ttlv.RegisterEnum/per-tag-maps", re.Pos(), "creation of the two per-tag maps not recognised (%d found)", len(cs))
+		default:
+			same := true
+			for _, c := range cs[1:] {
+				if c.guarded != cs[0].guarded {
+					same = false
+				}
+			}
+			if same {
+				r.OK("C17.N8", "ttlv.RegisterEnum/per-tag-maps", re.Pos(), "%d per-tag maps, all created under the same condition (only when absent: %v)", len(cs), cs[0].guarded)
+			} else {
+				r.Bad("C17.N8", "ttlv.RegisterEnum/per-tag-maps", cs[0].pos, "RegisterEnum keeps one of its per-tag maps across registrations and recreates the other: after a second registration for the same tag (a vendor extension value) the value->name map still holds the standard names while the name->value map has lost them, so names the writers emit can no longer be read")
+			}
+		}
+	} else {
+		r.Unk("C17.N8", "ttlv.RegisterEnum/per-tag-maps", token.NoPos, "anchor missing")
+	}
+
 	// thorough: cross-check the reference against the OASIS vectors (data only)
 	if r.Tier == "thorough" {
 		c17CrossCheckVectors(r, reg)
